@@ -89,6 +89,8 @@ func DERConsistent(valid []byte, maxTLV int) []DERMutation {
 			}
 		case t.Tag == 0x03: // BIT STRING
 			add(i, t.Tag, nil, "bits empty")
+			add(i, t.Tag, []byte{0}, "bits: the valid encoding of the empty bit string")
+			add(i, t.Tag, []byte{0, 0}, "bits: one zero octet")
 			if len(c) > 0 {
 				add(i, t.Tag, append([]byte{7}, c[1:]...), "bits unused=7")
 				add(i, t.Tag, c[:1], "bits only the unused-bits octet")
